@@ -9,6 +9,7 @@
 package c12
 
 import (
+	"math"
 	"strings"
 
 	"verif/harness/internal/core"
@@ -26,8 +27,9 @@ func init() {
 		Rule: "for every hook set of the grammar (hooks h1..h3, kinds {ConfigMap,Job}, weights {-1,0,1}, 5 delete-policy sets, attached to the pre or the post events of all four operations unless said otherwise: " +
 			"F1 one hook, full product; F1b one hook on all 8 events; F1e one hook on each single event; F2 two hooks, full product phase^2 x weight^2 x policy^2 x kinds {CJ,JC}(+CC,JJ thorough); " +
 			"F3m three hooks, the 6 mixed phase vectors x one policy for all; F3p three hooks of one phase, all 125 policy vectors; F3o three hooks of one phase, the 13 weak orders of weights (27 vectors thorough) x 4 (8) kind vectors x one policy for all; " +
+			"Fw2 two hooks of one phase, all 49 ordered weight pairs over {MinInt64,-2^62,-1,0,1,2^62,MaxInt64} x 4 kind vectors, clean cluster only; Fw3 three hooks of one phase, all 125 ordered weight triples over {MinInt64,-1,0,1,MaxInt64} x 8 kind vectors, clean cluster only, history cut after the first (thorough: second) operation; " +
 			"F2e (thorough) two hooks on all 64 pairs of single events) and every initial cluster (clean | one stale object per hook | all stale): " +
-			"BFS over histories install -> {upgrade -> {rollback -> uninstall | uninstall(thorough)} | uninstall}, every step with hooks on and (terminal) with hooks disabled, thorough also uninstall after every failed step; " +
+			"BFS over histories install -> {upgrade -> {rollback -> U | U(thorough)} | U} with U = uninstall | uninstall --keep-history, every step with hooks on and (terminal) with hooks disabled, thorough also U after every failed step; " +
 			"every transition is the real action on a clone of the state, run fault-free and once per hook-create request (rejected 403) and per hook WatchUntilReady call (error) discovered from the fault-free run; " +
 			"the projection of the server's request log (effective POST/DELETE on hook objects, WatchUntilReady calls, block of release-resource mutations, readiness wait) must equal the trace of the reference generator. " +
 			"non-trivial = the chart has hooks and the injected fault (if any) was reached; distinct = (driver, initial cluster, history incl. hook set and fault)",
@@ -43,7 +45,7 @@ func init() {
 			"reading used for a hook whose creation is refused: it never existed, so no policy deletion is expected for it; hooks of the same event that already succeeded are still covered by their hook-succeeded policy (ref.go: earlierSucceededCovered=true)",
 			"pre-X hooks precede the first mutation of a release resource and post-X hooks follow the last one and the readiness wait: taken as the definition of the lifecycle events",
 		},
-		RequiredFloors: []string{"order:weight-decides", "order:name-breaks-tie", "order:tie-against-kind-order", "stale:deleted-first", "stale:conflict", "policy:succeeded-delete", "policy:failed-delete",
+		RequiredFloors: []string{"order:weight-decides", "order:name-breaks-tie", "order:tie-against-kind-order", "order:weights-more-than-2^63-apart", "uninstall:keep-history-post-hook-failed", "stale:deleted-first", "stale:conflict", "policy:succeeded-delete", "policy:failed-delete",
 			"policy:succeeded-after-later-wait-failure", "policy:kept", "gate:pre-failed", "gate:post-failed", "gate:later-hook-skipped", "disabled", "fault:create-rejected", "fault:wait", "hook-in-both-phases",
 			"op:install", "op:upgrade", "op:rollback", "op:uninstall"},
 	})
@@ -70,6 +72,11 @@ var singleEvents = append(phaseEvents("pre"), phaseEvents("post")...)
 type hookSet struct {
 	Family string
 	Hooks  []hx.HookSpec
+	// DepthCap > 0 limits the history length for this set (ordering families whose
+	// subject, the sort inside execHook, is met by the first operation already).
+	DepthCap int
+	// NoStale: only the clean initial cluster (the family is about ordering).
+	NoStale bool
 }
 
 func mk(name string, kind string, events []string, w int, pol []string) hx.HookSpec {
@@ -187,6 +194,42 @@ func families(thorough bool) []hookSet {
 						hs = append(hs, mk(names[i], kinds[k[i]], phaseEvents(p), w[i], pol))
 					}
 					out = append(out, hookSet{Family: "F3o", Hooks: hs})
+				}
+			}
+		}
+	}
+	// Fw2 / Fw3: extreme weights. The annotation is parsed into a Go int, so the
+	// whole int64 range is legal; a comparator that subtracts weights overflows
+	// when two weights are more than 2^63-1 apart. All ordered pairs over
+	// {MinInt64, -2^62, -1, 0, 1, 2^62, MaxInt64} and all ordered triples over
+	// {MinInt64, -1, 0, 1, MaxInt64}, hooks of one phase, every kind vector.
+	// Template paths follow the names (templates/hook-hN.yaml) and Helm lists
+	// ConfigMaps before Jobs, so ordered weight tuples x kind vectors put every
+	// pair of weights in both arrival orders in front of the sort.
+	const big = 1 << 62
+	w7 := []int{math.MinInt64, -big, -1, 0, 1, big, math.MaxInt64}
+	w5 := []int{math.MinInt64, -1, 0, 1, math.MaxInt64}
+	for _, p := range phases {
+		for _, a := range w7 {
+			for _, b := range w7 {
+				for k := 0; k < 4; k++ {
+					out = append(out, hookSet{Family: "Fw2", NoStale: true, Hooks: []hx.HookSpec{mk("h1", kinds[k&1], phaseEvents(p), a, nil), mk("h2", kinds[k>>1], phaseEvents(p), b, nil)}})
+				}
+			}
+		}
+	}
+	capW3 := 1 // quick: install only (with its faults and the hooks-disabled variant)
+	if thorough {
+		capW3 = 2 // install -> {upgrade | uninstall | uninstall --keep-history}: hooks re-read from the stored record
+	}
+	for _, p := range phases {
+		for _, a := range w5 {
+			for _, b := range w5 {
+				for _, c := range w5 {
+					for k := 0; k < 8; k++ {
+						out = append(out, hookSet{Family: "Fw3", NoStale: true, DepthCap: capW3, Hooks: []hx.HookSpec{
+							mk("h1", kinds[k&1], phaseEvents(p), a, nil), mk("h2", kinds[(k>>1)&1], phaseEvents(p), b, nil), mk("h3", kinds[(k>>2)&1], phaseEvents(p), c, nil)}})
+					}
 				}
 			}
 		}
